@@ -97,6 +97,101 @@ def module_helpers():
     return {n: f for n, f in inspect.getmembers(G, inspect.isfunction) if getattr(f, "__module__", None) == G.__name__}
 
 
+# ---------------------------------------------------------------------------------------------- source normalisation
+# `for T in helper(args): BODY` where every path of the helper ends in `return (e1, ..., en)` (a literal tuple / list; the
+# helper is a decision tree of if / elif / else and returns) is the helper's decision tree with every return replaced by
+# the unrolled iterations `T = e1; BODY; ...; T = en; BODY` (BODY without break / continue).  Parameters are bound with the
+# live signature, the helper's names are renamed.  Sound for any such helper: it is what Python executes.
+
+def _tree_ok(stmts):
+    """a decision tree: statements are `if` (recursively) and a final `return <literal tuple/list>`"""
+    import ast
+    if not stmts:
+        return False
+    for st in stmts[:-1]:
+        if not (isinstance(st, ast.If) and _tree_ok(st.body) and (not st.orelse or _tree_ok(st.orelse))):
+            return False
+    last = stmts[-1]
+    if isinstance(last, ast.Return):
+        return isinstance(last.value, (ast.Tuple, ast.List)) and not any(isinstance(e, ast.Starred) for e in last.value.elts)
+    return isinstance(last, ast.If) and _tree_ok(last.body) and bool(last.orelse) and _tree_ok(last.orelse)
+
+
+def unroll_literal_loops(fnode, helpers):
+    import ast
+    import copy
+    counter = [0]
+
+    def has_jump(stmts):
+        return any(isinstance(n, (ast.Break, ast.Continue, ast.Return)) for st in stmts for n in ast.walk(st))
+
+    def expand(st):
+        if not (isinstance(st, ast.For) and not st.orelse and isinstance(st.iter, ast.Call)):
+            return None
+        key = ast.unparse(st.iter.func)
+        if key not in helpers or has_jump(st.body):
+            return None
+        hnode, _src = P.source_ast(helpers[key])
+        body = list(hnode.body)
+        if body and isinstance(body[0], ast.Expr) and isinstance(body[0].value, ast.Constant):
+            body = body[1:]
+        if not _tree_ok(body):
+            return None
+        try:
+            norm = P.normalise_call(st.iter, helpers[key], False, "h")
+        except P.Untranslatable:
+            return None
+        counter[0] += 1
+        prefix = "%s_%d_" % (hnode.name.strip("_"), counter[0])
+        table = {n: prefix + n for n in P._bound_names(hnode)}
+        ren = P._Rename(table)
+        out = [ast.Assign(targets=[ast.Name(id=table[kw.arg], ctx=ast.Store())], value=kw.value) for kw in norm.keywords]
+
+        def assign(target, value):
+            if isinstance(target, (ast.Tuple, ast.List)) and isinstance(value, (ast.Tuple, ast.List)) \
+                    and len(target.elts) == len(value.elts) and all(isinstance(t, ast.Name) for t in target.elts):
+                # the right-hand sides do not mention the targets (they are the helper's renamed names)
+                return [ast.Assign(targets=[copy.deepcopy(t)], value=v) for t, v in zip(target.elts, value.elts)]
+            return [ast.Assign(targets=[copy.deepcopy(target)], value=value)]
+
+        def tree(stmts):
+            res = []
+            for x in stmts:
+                if isinstance(x, ast.If):
+                    rest_after = None
+                    node = ast.If(test=ren.visit(copy.deepcopy(x.test)), body=tree(x.body), orelse=tree(x.orelse) if x.orelse else [])
+                    res.append(node)
+                    if not x.orelse:
+                        # `if c: return A` followed by more statements: the rest is the else arm
+                        idx = stmts.index(x)
+                        node.orelse = tree(stmts[idx + 1:])
+                        return res
+                else:                                   # the final return
+                    for e in x.value.elts:
+                        res += assign(st.target, ren.visit(copy.deepcopy(e)))
+                        res += [copy.deepcopy(b) for b in st.body]
+            return res
+        out += tree(body)
+        for o in out:
+            for sub in ast.walk(o):
+                ast.copy_location(sub, st)
+        return out
+
+    def walk(stmts):
+        res = []
+        for x in stmts:
+            for f in ("body", "orelse", "finalbody"):
+                if hasattr(x, f) and isinstance(getattr(x, f), list) and not isinstance(x, (ast.FunctionDef, ast.ClassDef)):
+                    setattr(x, f, walk(getattr(x, f)))
+            rep = expand(x)
+            res += rep if rep is not None else [x]
+        return res
+    fnode = copy.deepcopy(fnode)
+    fnode.body = walk(fnode.body)
+    ast.fix_missing_locations(fnode)
+    return fnode
+
+
 def rules(extra_expr=(), stmt=(), names=None, ret=".ok ({e})", raise_=".error .valueError", **kw):
     kw.setdefault("helpers", module_helpers())
     kw.setdefault("refuse_inplace_params", True)
@@ -160,7 +255,8 @@ def items():
     # ---- the four assembly routines, each for return_covariances = False / True
     def builder(fn, args):
         P.check_params(fn, BUILDER_POS)
-        return T().function(fn, args, ind=1)
+        node, _src = P.source_ast(fn)
+        return T().function_node(unroll_literal_loops(node, module_helpers()), args, ind=1)
 
     for rc, suffix, res in (("false", "", "%s"), ("true", "RC", "(%s × List Arr)")):
         args = dict(BUILDER_ARGS, return_covariances=rc)
